@@ -376,9 +376,27 @@ def describe(n):
         return f'{type(n).__name__}[{n!r}]'
 
 
+def _adapt_nproc(ctx):
+    """Measured on this 16-vCPU VM: the judge workers scale to about 4-8 processes (1: 9.3 s, 4: 3.0 s, 8: 2.9 s,
+    16: 4.6 s wall for the same work on an idle machine, kernel time growing from 0.1 s to 24 s) and at load 100
+    sixteen workers ran 4x slower than one.  Cap the pool at 6 and narrow it further under load, unless
+    VERIF_NPROC says otherwise."""
+    import os
+    if 'VERIF_NPROC' in os.environ:
+        return
+    ctx.nproc = min(ctx.nproc, 6)
+    try:
+        load, ncpu = os.getloadavg()[0], os.cpu_count() or 4
+    except OSError:
+        return
+    if load > ncpu:
+        ctx.nproc = max(2, min(ctx.nproc, int(ncpu * ncpu / load)))
+
+
 def run(ctx):
     import collections
     from vf.explore import seeded_order
+    _adapt_nproc(ctx)
     specs = zoo_specs(not ctx.quick)
     nodes = get_nodes(ctx.tier)
     classes = collections.Counter(type(n).__name__ for _, _, _, n in nodes)
@@ -394,7 +412,10 @@ def run(ctx):
         x, y = nodes[i][3], nodes[j][3]
         twins = nodes[i][1] == nodes[j][1]
         mx, my = descend(x, y, law, twins) if law in ('symmetry', 'case', 'hash', 'dict') else (x, y)
-        sig = f'{law}: {type(mx).__name__} vs {type(my).__name__}'
+        names = [type(mx).__name__, type(my).__name__]
+        if law == 'symmetry':
+            names.sort()                 # (x, y) and (y, x) break symmetry together: one signature
+        sig = f'{law}: {names[0]} vs {names[1]}'
         if law == 'case' or (law in ('hash', 'dict') and twins):
             sig += ' (case twins)'
         case = dict(law=law, x=dict(spec=specs[nodes[i][1]][1], variant=nodes[i][2]),
